@@ -51,7 +51,7 @@ func (c05) Runs(t Tier) int {
 }
 func (c05) RecordWidths() map[string]int { return map[string]int{"ops": 3} }
 func (c05) RequiredProbes() []string {
-	return []string{"range-starts-on-boundary", "range-ends-on-boundary", "range-inside-one-chunk", "range-empty", "range-whole-file", "reader-history", "abandoned-seek", "subset-traversal", "lookup-member", "lookup-nonmember", "hamt-depth>=3", "path-through-hamt", "path-to-multiblock-file", "path-to-missing-entry", "linksystem-with-node-reifier", "starved-ok"}
+	return []string{"range-starts-on-boundary", "range-ends-on-boundary", "range-inside-one-chunk", "range-empty", "range-whole-file", "reader-history", "abandoned-seek", "subset-traversal", "lookup-member", "lookup-nonmember", "hamt-depth>=3", "path-through-hamt", "path-to-multiblock-file", "path-to-missing-entry", "file-beyond-4GiB", "linksystem-with-node-reifier", "starved-ok"}
 }
 
 type c05Scenario struct {
@@ -79,14 +79,170 @@ func monitor(st *store.Store, allowed map[string]bool, starve bool, outside *[]c
 
 func (c c05) Run(ts *tape.Set, tier Tier) *Result {
 	shape := ts.T("shape")
-	switch shape.Pick(3, 2, 2) {
+	switch shape.Pick(12, 8, 8, 1) {
 	case 0:
 		return c.runFile(ts, tier)
 	case 1:
 		return c.runDir(ts, tier)
-	default:
+	case 2:
 		return c.runTree(ts, tier)
+	default:
+		return c.runHuge(ts, tier)
 	}
+}
+
+// runHuge: a de-duplicated file of several gigabytes (a handful of stored
+// blocks): small reads at offsets around 2^31, 2^32, the borders of its
+// multi-gigabyte subtrees and its end. Bytes are checked against the sparse
+// model and every request against the block set the range needs.
+func (c05) runHuge(ts *tape.Set, tier Tier) *Result {
+	res := &Result{}
+	shape := ts.T("shape")
+	seed := shape.Raw()
+	st := store.New()
+	root := gen.WriteHugeFile(st, seed)
+	model, err := dagmodel.BuildFileSparse(st, root)
+	if err != nil {
+		res.Skipped, res.SkipReason = true, "model: "+err.Error()
+		return res
+	}
+	L := model.Len
+	sc := &c05Scenario{Kind: "huge file", Spec: fmt.Sprintf("de-duplicated file of %d bytes in %d stored blocks (%d block occurrences)", L, len(model.BlockSet()), len(model.Spans)), Blocks: len(model.BlockSet())}
+	res.Scenario = sc
+	res.probe("file-beyond-4GiB")
+	res.NonTrivial = true
+	// interesting offsets: powers of two, borders of the depth-1 subtrees, end
+	var marks []int64
+	for _, m := range []int64{0, 1 << 31, 1 << 32, 1<<32 + 1<<31, L} {
+		if m <= L {
+			marks = append(marks, m)
+		}
+	}
+	for _, s := range model.Spans {
+		if s.Depth == 1 {
+			marks = append(marks, s.Start, s.End)
+		}
+	}
+	ops := ts.T("ops")
+	nOps := 2 + shape.Intn(5)
+	var sig uint64
+	st.ResetLog()
+	w := newWorld(st, false, shape.Intn(3) == 2)
+	var opErr string
+	var failClass, failMsg string
+	panicked, site, pmsg := guard(func() {
+		n, _, err := openFile(w, root, 1)
+		if err != nil {
+			opErr = err.Error()
+			return
+		}
+		rs, err := n.(datamodel.LargeBytesNode).AsLargeBytes()
+		if err != nil {
+			opErr = err.Error()
+			return
+		}
+		pos := int64(0)
+		for i := 0; i < nOps; i++ {
+			m := marks[ops.Intn(len(marks))]
+			a := m + int64(ops.Intn(9)) - 4
+			k := int64(1 + ops.Intn(3000))
+			if a < 0 {
+				a = 0
+			}
+			if a > L {
+				a = L
+			}
+			b := a + k
+			if b > L {
+				b = L
+			}
+			whence := ops.Intn(3)
+			allowed := model.Allowed(a, b)
+			var outside []cid.Cid
+			// a library gone wrong on a file of gigabytes can read gigabytes:
+			// requests outside the allowed set are refused (the step then fails
+			// and is reported as over-fetching), and so is everything beyond a
+			// generous number of requests for a read of a few kilobytes
+			requests := 0
+			overBudget := false
+			st.ReadPolicy = func(_ int, c cid.Cid) *store.ReadFault {
+				requests++
+				if requests > 4000 {
+					overBudget = true
+					return &store.ReadFault{Kind: store.EIOOpen}
+				}
+				if !allowed[c.KeyString()] {
+					outside = append(outside, c)
+					return &store.ReadFault{Kind: store.NotFound}
+				}
+				return nil
+			}
+			check := func() bool {
+				if overBudget {
+					failClass, failMsg = "c05/huge/unbounded-loads", fmt.Sprintf("step %d: reading [%d,%d) of a %d byte de-duplicated file issued more than 4000 block requests", i, a, b, L)
+					return true
+				}
+				if len(outside) > 0 {
+					failClass, failMsg = "c05/huge/over-fetch", fmt.Sprintf("step %d: reading [%d,%d) of a %d byte de-duplicated file requested %d block(s) outside the %d the range needs (first: %s)", i, a, b, L, len(outside), len(allowed), shortCid(outside[0]))
+					return true
+				}
+				return false
+			}
+			var off int64
+			var wh int
+			switch whence {
+			case 0:
+				wh, off = io.SeekStart, a
+			case 1:
+				wh, off = io.SeekCurrent, a-pos
+			default:
+				wh, off = io.SeekEnd, a-L
+			}
+			sc.Ops = append(sc.Ops, fmt.Sprintf("%s to %d, readfull %d", []string{"SeekStart", "SeekCurrent", "SeekEnd"}[whence], a, b-a))
+			got, err := rs.Seek(off, wh)
+			if check() {
+				return
+			}
+			if err != nil || got != a {
+				failClass, failMsg = "c05/huge/seek", fmt.Sprintf("step %d: Seek to %d returned (%d, %v)", i, a, got, err)
+				return
+			}
+			buf := make([]byte, b-a)
+			_, rerr := io.ReadFull(rs, buf)
+			if check() {
+				return
+			}
+			if err := rerr; err != nil {
+				failClass, failMsg = "c05/huge/read", fmt.Sprintf("step %d: ReadFull(%d) at %d of %d: %v", i, b-a, a, L, err)
+				return
+			}
+			pos = b
+			if !bytes.Equal(buf, model.ReadAt(a, b)) {
+				failClass, failMsg = "c05/huge/wrong-bytes", fmt.Sprintf("step %d: bytes [%d,%d) of a %d byte file differ from the content", i, a, b, L)
+				return
+			}
+			sig = fnvMix(sig, uint64(whence), uint64(len(allowed)))
+		}
+	})
+	res.Execs++
+	res.Events += len(st.Log)
+	res.Sig = sigOfLog(sig, st.Log)
+	if panicked {
+		res.Violation = &Violation{Class: "c05/huge/panic@" + site, Msg: "panic: " + pmsg}
+		return res
+	}
+	if opErr != "" {
+		res.Skipped, res.SkipReason = true, "cannot open: "+opErr
+		return res
+	}
+	if failClass != "" {
+		// wrong bytes / failing seeks at large offsets are C04's subject in
+		// principle, but C04's model holds content in memory and never gets
+		// here: they are reported by this mode
+		res.Violation = &Violation{Class: failClass, Msg: failMsg}
+		res.Excerpt = excerpt(st.Log, 12)
+	}
+	return res
 }
 
 func (c05) runFile(ts *tape.Set, tier Tier) *Result {
